@@ -41,7 +41,9 @@ CONSTANTS DEV_UpdateBeforeOnBar,     \* market.update() runs before strategy.on_
           DEV_SkipNotifyWhenTwo,     \* notify is skipped when exactly two actions are pending
           DEV_RowTwice,              \* the account row is appended twice when after_bar produced an action
           DEV_PriceLast,             \* resampled prices take the last instead of the first minute of a bar
-          DEV_RefreshAlways          \* second status refresh for every market, written or not
+          DEV_RefreshAlways,         \* second status refresh for every market, written or not
+          DEV_NotifyIteratesCopy     \* notifications run over a copy of the bar's action buffer: an operation issued inside
+                                     \* notify() is recorded but never delivered
 
 None == -1
 
@@ -299,7 +301,9 @@ FinalStep(c, st, ev) ==
 Accepts(st, m, k) == k = "n" \/ (k = "w" /\ st.open[m])
 
 OpStep(c, st, ev) ==
-  LET inHook == st.phase \in HookPhases /\ (st.phase = "Trigger" => st.inDo)
+  LET inHook == \/ st.phase \in HookPhases /\ (st.phase = "Trigger" => st.inDo)
+                \/ st.phase = "Notify"          \* inside the strategy's notify(): the record joins this bar's buffer and is
+                                                \* delivered in the same Notify phase (the code iterates the live buffer)
       stampClause == IF st.phase = "Initialize" THEN "info/InitStamp" ELSE "Stamp"
   IN
   IF ~inHook THEN Fail(st, "info/Op: operation outside a strategy hook")
@@ -308,7 +312,9 @@ OpStep(c, st, ev) ==
        THEN Fail(st, stampClause \o ": an accepted operation must append exactly one action record stamped with the bar it ran in")
   ELSE IF ~ev.f /\ ev.a # <<>> THEN Fail(st, "info/RejectedNoRecord: a rejected operation appended a record")
   ELSE IF ev.f # Accepts(st, ev.m, ev.k) THEN Fail(st, "info/Outcome: accepted/rejected differs from the gate (closed market, bad argument)")
-  ELSE OK([AddActs(st, ev.a, ev.m, ev.k) EXCEPT !.need[ev.m] = IF ev.f /\ ev.k = "w" THEN TRUE ELSE @])
+  ELSE LET s2 == AddActs(st, ev.a, ev.m, ev.k)
+            s3 == IF DEV_NotifyIteratesCopy /\ st.phase = "Notify" THEN [s2 EXCEPT !.pending = st.pending] ELSE s2
+       IN OK([s3 EXCEPT !.need[ev.m] = IF ev.f /\ ev.k = "w" THEN TRUE ELSE @])
 
 Step(c, st, ev) ==
   CASE ev.e = "status" -> StatusStep(c, st, ev)
@@ -382,7 +388,7 @@ Succ(ph) ==
     [] OTHER             -> {}
 
 Act_C05_PhaseOrder(st, st2, e) ==
-  IF e = "op" THEN st2.phase = st.phase /\ st.phase \in HookPhases
+  IF e = "op" THEN st2.phase = st.phase /\ st.phase \in HookPhases \cup {"Notify"}
   ELSE st2.phase \in Succ(st.phase)
 
 (* the hooks of one bar as the strategy sees them: before_bar, triggers, on_bar, update of every market, after_bar. *)
